@@ -946,7 +946,7 @@ impl World {
         }
         let Reverse((_, _, rid)) = self.rx.pop().expect("due datagram");
         let bytes = self.resps[rid].bytes.take().unwrap_or_default();
-        if self.sc.inject.replay_prev_round_pm > 0 || debug_bytes() {
+        if self.sc.inject.replay_prev_round_pm > 0 || self.sc.record_rx || debug_bytes() {
             self.resps[rid].kept = Some(bytes.clone());
         }
         let src = self.resps[rid].src;
